@@ -382,16 +382,41 @@ def rule_est_writers(ctx, crate, rule="R-EST-WRITERS"):
     cfg = crate.config
     n = 0
     own = ("state::Estimator::new", "state::Estimator::record", "state::Estimator::reset")
+    n_anchor = 0
     for b in K.lib_bodies(crate):
+        # where the *position* is reset to zero the estimator starts over with it (a fresh Estimator::new(now): its step anchor is 0
+        # like the position); that is the one place outside the estimator's own methods where it may be replaced
+        pos_resets = [c.bb for c in b.calls(r"state::AtomicPosition::reset")]
+        fresh_ok = set()
+        if pos_resets:
+            fresh_ok = set(b.reachable()) - b.reach([0], avoid=pos_resets)
         for i, j, s, name in est_field_stores(b):
             n += 1
-            ctx.check(b.name in own, rule, "write:%s" % name, b.name, "%s:%d" % (b.file, s.get("line", 0)),
+            ok = b.name in own or (i in fresh_ok and not [a for a in b.slice_rv(i, s).atoms if a[0] == "field" and a[1] == EST])
+            ctx.check(ok, rule, "write:%s" % name, b.name, "%s:%d" % (b.file, s.get("line", 0)),
                       "Estimator.%s written by new/record/reset" % name, "Estimator.%s written outside new/record/reset" % name, cfg)
+        replaced_at = []
         for i, j, s in b.assigns():
             if any(adt == PS and name == "est" for adt, v, name in place_fields(s["lhs"])[-1:]):
                 n += 1
-                ctx.bad(rule, "replace-estimator", b.name, "%s:%d" % (b.file, s.get("line", 0)),
-                        "ProgressState.est is overwritten as a whole outside its constructor", cfg)
+                sl = b.slice_rv(i, s)
+                fresh = not [a for a in sl.atoms if a[0] == "field" and a[1] == EST] and not [c for c in sl.calls if not c.matches(r"state::Estimator::new", r"std::time::Instant::.*", r"web_time::Instant::.*")]
+                ok = i in fresh_ok and fresh
+                replaced_at.append(i)
+                ctx.check(ok, rule, "replace-estimator", b.name, "%s:%d" % (b.file, s.get("line", 0)),
+                          "the estimator is replaced by a fresh one only where the position itself is reset to zero",
+                          "ProgressState.est is overwritten as a whole where the position is not reset to zero (reset_eta / reset_elapsed keep the position: a fresh estimator "
+                          "measures the next sample from step 0 and everything done before the reset leaks into the rate)", cfg)
+        for pr in pos_resets:
+            if b.name.startswith("state::AtomicPosition::"):
+                continue
+            n_anchor += 1
+            anchors = replaced_at + [i for i, j, s, name in est_field_stores(b) if name == "prev_steps"]
+            ok = bool(anchors) and b.must_pass(b.succ(pr), anchors)
+            ctx.check(ok, rule, "step-anchor-follows-position", b.name, "%s:%d" % (b.file, b.term(pr).get("line", 0)),
+                      "where the position is reset to zero the estimator's step anchor is reset with it",
+                      "the position is reset to zero but the estimator keeps measuring from the old position (Estimator::reset keeps prev_steps by design): after reset() the first "
+                      "update below the old position is discarded as a rewind and later ones are under-counted - set_position(100); reset(); set_position(150) counts 50 steps", cfg)
         # &mut to the estimator handed to anything but its own methods
         for c in b.calls():
             if c.matches(r"state::Estimator::\w+"):
@@ -402,9 +427,12 @@ def rule_est_writers(ctx, crate, rule="R-EST-WRITERS"):
                     ctx.bad(rule, "mut-escape:%s" % K.meth(c.path), b.name, c.loc(), "&mut Estimator passed to %s" % c.path, cfg)
     for (b, i, j, s) in K.constructions(crate, EST):
         n += 1
-        ctx.check(b.name in own, rule, "construct", b.name, "%s:%d" % (b.file, s.get("line", 0)),
+        prs = [c.bb for c in b.calls(r"state::AtomicPosition::reset")]
+        ok = b.name in own or (bool(prs) and i not in b.reach([0], avoid=prs))      # (Estimator::new inlined next to a position reset)
+        ctx.check(ok, rule, "construct", b.name, "%s:%d" % (b.file, s.get("line", 0)),
                   "Estimator built by its own new/reset", "Estimator built outside Estimator::new/reset", cfg)
     ctx.floor(rule, n, 8, cfg, "estimator state writes / constructions")
+    ctx.floor(rule, n_anchor, 1, cfg, "functions that reset the position to zero")
 
 
 def rule_est_reset_total(ctx, crate, rule="R-EST-RESET-TOTAL"):
